@@ -103,6 +103,8 @@ class Storage:
         self.ndirs = 2 if kind in ("fs2", "choice", "choice-fs") else 1
         self.dirs = [F.ROOT + f"t0d{i}" for i in range(self.ndirs)]
         self.mappings: list[dict[str, str]] = [{}, {}]  # kind 'choice': one mapping per delegate loader
+        self.outage = False  # kind 'func-triple': while set, load() and the up-to-date check raise OSError
+        self.outage_hits = 0
 
     @property
     def is_fs(self) -> bool:
@@ -175,11 +177,30 @@ class Storage:
         if self.kind == "func-str":
             return jinja2.FunctionLoader(lambda name: m.get(name))
         if self.kind == "func-triple":
+            st_ = self
+
+            def boom():
+                import errno
+
+                e = OSError(errno.EIO, "storage outage (injected)")
+                st_.fs.last_injected_error = e
+                st_.fs.injected.append(e)
+                st_.outage_hits += 1
+                return e
+
             def load(name):
+                if st_.outage:
+                    raise boom()
                 s = m.get(name)
                 if s is None:
                     return None
-                return s, None, (lambda: m.get(name) == s)
+
+                def uptodate():
+                    if st_.outage:
+                        raise boom()  # like the loader in the BaseLoader docstring: getmtime() of unreachable storage
+                    return m.get(name) == s
+
+                return s, None, uptodate
             return jinja2.FunctionLoader(load)
         if self.kind == "choice-fs":
             # a failing delegate (I/O error) must not make the choice fall through to the shadowed copy
@@ -251,6 +272,15 @@ class Model:
         key = (st.gen, name)
         name = canon(name)
         ent = None
+        if fault["kind"] == "outage":
+            # storage unreachable for this whole operation: only a cached template that needs no check is served
+            if self.size != 0 and key in self.lru and not self.auto_reload:
+                if self.size > 0:
+                    self.lru.move_to_end(key)
+                return {self.lru[key]["version"]}, None
+            if self.size != 0 and key in self.lru and self.size > 0:
+                self.lru.move_to_end(key)  # the lookup touched the entry before its check failed
+            return {"oserror"}, None
         if self.size != 0 and key in self.lru:
             ent = self.lru[key]
             if self.size > 0:
@@ -570,7 +600,7 @@ def run(tape) -> Outcome:
     size = SIZES[tape.draw(len(SIZES))]
     nnames = 2 + tape.draw(2)
     names = NAMES[:nnames]
-    faulty = kind in ("fs", "fs2", "choice-fs") and tape.draw(4, "f") == 3
+    faulty = kind in ("fs", "fs2", "choice-fs", "func-triple") and tape.draw(4, "f") == 3
     nops = 4 + tape.draw(11)
 
     clock = F.SimClock()
@@ -595,6 +625,8 @@ def run(tape) -> Outcome:
     pending: set = set()  # (env, name) pairs that were looked up before and whose source changed since
     fault_op = tape.draw(nops, "f") if faulty else -1
     fault_kind = ("open", "getmtime")[tape.draw(2, "f")] if faulty else None
+    if faulty and kind == "func-triple":
+        fault_kind = "outage"
     fired_faults = 0
     gc_was = gc.isenabled()
     gc.disable()
@@ -612,7 +644,12 @@ def run(tape) -> Outcome:
                     tnames = [tape.pick(req_names) for _ in range(1 + tape.draw(3))]
                     arg = tnames
                 fault = fault_kind if i == fault_op else None
-                if fault:
+                if fault == "outage":
+                    st.outage = True
+                    armed = {"kind": fault, "done": False}
+                    orig_event = fs.event
+                    hits0 = st.outage_hits
+                elif fault:
                     # arm: the next open-r / getmtime event of this operation raises EIO
                     armed = {"kind": fault, "done": False}
                     orig_event = fs.event
@@ -642,6 +679,9 @@ def run(tape) -> Outcome:
                 if expected is None:
                     expected = {"notfound"}
                 obs, extra = _observe(env, arg, fs)
+                if fault == "outage":
+                    st.outage = False
+                    armed["done"] = st.outage_hits > hits0
                 if fault:
                     fs.event = orig_event
                     if armed["done"]:
@@ -757,3 +797,7 @@ def run(tape) -> Outcome:
     if out.sig is None and (nontrivial or any(m.evictions for m in models) or fired_faults):
         out.case = digest([kind, auto_reload, size, with_bcc, ops_dec])
     return out
+
+from sim.core import guarded as _guarded  # noqa: E402
+
+run = _guarded(run)
